@@ -4,6 +4,7 @@ import (
 	"fmt"
 	"go/types"
 	"strings"
+	"sync"
 
 	"golang.org/x/tools/go/ssa"
 )
@@ -157,6 +158,9 @@ func (x *Exec) callValue(st *State, fr *Frame, fnv Value, args []Value, dest ssa
 	if isNoopPkg(pp) {
 		x.StubsHit["noop:"+pp]++
 		return deliver(x.zeroOf(fn.Signature.Results()))
+	}
+	if len(fn.Blocks) == 0 {
+		x.buildFn(fn)
 	}
 	if len(fn.Blocks) == 0 {
 		panic(x.unsupported("no body / intrinsic for " + name))
@@ -796,4 +800,25 @@ func (x *Exec) initSlice(initFn *ssa.Function, g *ssa.Global) ([]ssa.Instruction
 		}
 	}
 	return script, true
+}
+
+var buildMu sync.Mutex
+
+// buildFn builds the SSA of the package that owns fn (lazily; building the
+// whole import graph up front costs half a minute for the daemon package).
+func (x *Exec) buildFn(fn *ssa.Function) {
+	buildMu.Lock()
+	defer buildMu.Unlock()
+	if fn.Pkg != nil {
+		fn.Pkg.Build()
+		return
+	}
+	if o := fn.Origin(); o != nil && o.Pkg != nil {
+		o.Pkg.Build()
+	}
+	if fn.Object() != nil && fn.Object().Pkg() != nil {
+		if p := x.prog.Package(fn.Object().Pkg()); p != nil {
+			p.Build()
+		}
+	}
 }
